@@ -1258,7 +1258,8 @@ class PyCdlib:
                 try_long_entry = False
                 try:
                     new_record.parent.track_child(new_record,
-                                                  self.logical_block_size)
+                                                  self.logical_block_size,
+                                                  False, True)
                 except pycdlibexception.PyCdlibInvalidInput:
                     # dir_record.track_child() may throw a PyCdlibInvalidInput
                     # if it was given a duplicate child.  However, we allow
@@ -1272,7 +1273,8 @@ class PyCdlib:
 
                 if try_long_entry:
                     new_record.parent.track_child(new_record,
-                                                  self.logical_block_size, True)
+                                                  self.logical_block_size, True,
+                                                  True)
 
                 if is_pvd and not dots:
                     # The identifiers of the dot and dotdot records (0x00 and
@@ -1288,6 +1290,10 @@ class PyCdlib:
                     interchange_level = max(interchange_level, new_level)
 
                 last_record = new_record
+
+            # The children were tracked without giving them their place in
+            # the directory each time; do that once for all of them now.
+            dir_record.finish_tracking(self.logical_block_size)
 
         for pl in parent_links:
             if pl.rock_ridge is not None:
